@@ -489,6 +489,11 @@ func (w *lw) faulted(op h.Op, err error) bool {
 	for ln, ids := range named {
 		for _, id := range ids {
 			w.model.MarkFault(ln, id)
+			// what hangs on a named id shares its fate from now on: whether (and
+			// when) the id expires or goes is no longer known, and they go with it
+			for d := range w.model.Dependents(w.model.Loc(ln), id) {
+				w.model.MarkFault(ln, d)
+			}
 		}
 	}
 	w.addGhost(op.Loc, genItem)
